@@ -140,4 +140,27 @@ def checkPlan (strict : Bool) (parents : List (List Nat)) (retained : List Nat) 
       | none => throw "no-branch-left"
   return ()
 
+/-- undirected neighbours of a commit in the parent graph -/
+def neighbours (parents : List (List Nat)) (c : Nat) : List Nat :=
+  parents.getD c [] ++ (List.range parents.length).filter fun d => (parents.getD d []).contains c
+
+def expand (parents : List (List Nat)) (s : List Nat) : List Nat :=
+  s.foldl (fun acc c => unionSorted (neighbours parents c) acc) s
+
+/-- connected component of `c` (sorted), by `n` rounds of neighbour expansion -/
+def iter (f : List Nat → List Nat) : Nat → List Nat → List Nat
+  | 0, s => s
+  | n + 1, s => iter f n (f s)
+
+def componentOf (parents : List (List Nat)) (c : Nat) : List Nat :=
+  iter (expand parents) parents.length [c]
+
+/-- `leaveRootComponent`: the retained commits form one connected component and no component is larger
+(which of several largest ones is kept depends on map order: observed choice) -/
+def retainedOK (parents : List (List Nat)) (ret : List Nat) : Bool :=
+  match ret with
+  | [] => parents.isEmpty
+  | c :: _ => ret == componentOf parents c &&
+      (List.range parents.length).all fun d => (componentOf parents d).length ≤ ret.length
+
 end Pl
